@@ -126,6 +126,8 @@ func (s *sut) destroy() {
 	os.RemoveAll(s.dir)
 }
 
+var errNothingToCommit = errors.New("no entry accepted")
+
 // commit one transaction (without waiting for the indexers) and read it back from the log
 func (s *sut) commit(t *Tx) error {
 	otx, err := s.st.NewWriteOnlyTx(s.ctx)
@@ -139,6 +141,7 @@ func (s *sut) commit(t *Tx) error {
 		}
 		otx.WithMetadata(md)
 	}
+	var accepted []Entry
 	for i := range t.Es {
 		e := &t.Es[i]
 		var md *store.KVMetadata
@@ -155,10 +158,21 @@ func (s *sut) commit(t *Tx) error {
 			}
 		}
 		if err := otx.Set(e.Key, md, e.Val); err != nil {
+			if errors.Is(err, store.ErrCannotUpdateKeyTransiency) {
+				// a raw key equal to the mapped key of an entry of the same transaction is
+				// refused by the ongoing transaction: the entry is simply not part of the history
+				continue
+			}
 			otx.Cancel()
 			return err
 		}
+		accepted = append(accepted, *e)
 	}
+	if len(accepted) == 0 {
+		otx.Cancel()
+		return errNothingToCommit
+	}
+	t.Es = accepted
 	hdr, err := otx.AsyncCommit(s.ctx)
 	if err != nil {
 		return err
